@@ -867,6 +867,10 @@ def _gen_animation(rng, ver):
     from hippolyzer.lib.base.datatypes import Vector3, Quaternion
     from hippolyzer.lib.base.multidict import OrderedMultiDict
     dur = rng.choice([0.5, 1.0, 2.5, 10.0, 60.0])
+    # every scalar field over its full wire domain, not just the values a viewer would write
+    s32 = lambda: rng.choice([0, 1, 2, -1, 6, 0x7fffffff, -0x80000000, rng.randrange(-2 ** 31, 2 ** 31)])  # noqa
+    f32 = lambda: rng.choice([0.0, 0.25, 1.0, -1.0, 1.5, 3.4028234663852886e+38, -3.4028234663852886e+38,  # noqa
+                              1.401298464324817e-45, 1.1754943508222875e-38])
     raw = tuple(ver) == (0, 1)
 
     def frac(lo, hi):
@@ -882,20 +886,20 @@ def _gen_animation(rng, ver):
             pk = [llanim.PosKeyframe(time=rng.random() * dur, pos=Vector3(*[rng.uniform(-4.9, 4.9) for _ in range(3)]))
                   for _ in range(rng.randrange(0, 4))]
         # duplicate joint names are legal (multidict)
-        joints.add(rng.choice(["mPelvis", "mTorso", "m", "mAnkleLeft"]), llanim.Joint(priority=rng.randrange(-1, 7), rot_keyframes=rk, pos_keyframes=pk))
+        joints.add(rng.choice(["mPelvis", "mTorso", "m", "mAnkleLeft"]), llanim.Joint(priority=s32(), rot_keyframes=rk, pos_keyframes=pk))
     if not raw:
         joints.add("mExact", llanim.Joint(
-            priority=rng.randrange(-1, 7),
+            priority=s32(),
             rot_keyframes=[llanim.RotKeyframe(time=rng.choice([0.0, dur]), rot=Quaternion(*rng.choice(_ANCHOR_QUATS))) for _ in range(rng.randrange(1, 4))],
             pos_keyframes=[llanim.PosKeyframe(time=rng.choice([0.0, dur]), pos=Vector3(*rng.choice(_ANCHOR_POS))) for _ in range(rng.randrange(1, 4))]))
-    cons = [llanim.Constraint(chain_length=rng.randrange(256), type=llanim.ConstraintType(rng.randrange(2)),
+    cons = [llanim.Constraint(chain_length=rng.choice([0, 1, 255, rng.randrange(256)]), type=llanim.ConstraintType(rng.randrange(2)),
                               source_volume=rng.choice(["mA", "", "0123456789abcde"]), source_offset=Vector3(1, 2, 3),
-                              target_volume=rng.choice(["mTarget", "GROUND"]), target_offset=Vector3(0, 0.5, 0), target_dir=Vector3(0, 0, 1),
-                              ease_in_start=0.0, ease_in_stop=0.5, ease_out_start=1.0, ease_out_stop=1.5)
+                              target_volume=rng.choice(["mTarget", "GROUND"]), target_offset=Vector3(f32(), 0.5, f32()), target_dir=Vector3(0, 0, 1),
+                              ease_in_start=f32(), ease_in_stop=f32(), ease_out_start=f32(), ease_out_stop=f32())
             for _ in range(rng.choice([0, 0, 1, 2, 3]))]
-    return llanim.Animation(major_version=ver[0], minor_version=ver[1], base_priority=rng.randrange(0, 7), duration=dur,
-                            emote_name=rng.choice(["", "smile", "express_anger"]), loop_in_point=0.0, loop_out_point=dur,
-                            loop=rng.randrange(2), ease_in_duration=0.25, ease_out_duration=0.5,
+    return llanim.Animation(major_version=ver[0], minor_version=ver[1], base_priority=s32(), duration=dur,
+                            emote_name=rng.choice(["", "smile", "express_anger"]), loop_in_point=f32(), loop_out_point=rng.choice([dur, f32()]),
+                            loop=s32(), ease_in_duration=f32(), ease_out_duration=f32(),
                             hand_pose=llanim.HandPose(rng.randrange(14)), joints=joints, constraints=cons)
 
 
@@ -904,31 +908,37 @@ def _anim_event(rng, ver):
     a0 = _gen_animation(rng, ver)
     ev = {"ev": "Anim", "ver": list(ver), "emote": len(a0.emote_name.encode("utf8")),
           "joints": [{"name": len(k.encode("utf8")), "rot": len(j.rot_keyframes), "pos": len(j.pos_keyframes)} for k, j in a0.joints.items(multi=True)],
-          "ncons": len(a0.constraints), "size": -1, "bytes": [], "rt_model": False, "rt_bytes": False, "rt_exact": False}
+          "ncons": len(a0.constraints), "size": -1, "bytes": [], "rt_model": False, "rt_bytes": False, "rt_exact": False,
+          # header scalars of the GENERATED model: TLC looks for them in its serialisation
+          "prio": int(a0.base_priority), "loop": int(a0.loop), "hand": int(a0.hand_pose),
+          "jprio": [int(j.priority) for _, j in a0.joints.items(multi=True)]}
 
     def go():
-        # the generated floats are not representable in the quantised layout: the model under test is the one the
-        # parser produced from them (a model the format can express)
-        a1 = Animation.from_bytes(a0.to_bytes())
+        # the generated floats are not representable in the quantised layout: the model under test for full equality is
+        # the one the parser produced from them (a model the format can express)
+        b0 = a0.to_bytes()
+        a1 = Animation.from_bytes(b0)
         b1 = a1.to_bytes()
         a2 = Animation.from_bytes(b1)
-        return a1, b1, a2, a2.to_bytes()
+        return b0, a1, b1, a2, a2.to_bytes()
     st, r = common.impl_call(go)
     if st != "ok":
         ev["raised"] = r
         return ev
-    a1, b1, a2, b2 = r
-    ev["size"] = len(b1)
-    if len(b1) <= 380:
-        ev["bytes"] = list(b1)
+    b0, a1, b1, a2, b2 = r
+    ev["size"] = len(b0)
+    if len(b0) <= 380:
+        ev["bytes"] = list(b0)
     ev["rt_model"] = bool(a2 == a1)
-    ev["rt_bytes"] = bool(b2 == b1)
+    # bytes -> model -> bytes, on the serialisation of the generated model and on that of the parsed one
+    ev["rt_bytes"] = bool(b1 == b0 and b2 == b1)
     if tuple(ver) == (0, 1):
         ev["rt_exact"] = bool(a1 == a0)
     else:
         import dataclasses as dc
         strip = lambda a: dc.replace(a, joints=None)  # noqa
         ev["rt_exact"] = bool(strip(a1) == strip(a0) and a1.joints.getlist("mExact") == a0.joints.getlist("mExact")
+                              and [j.priority for _, j in a1.joints.items(multi=True)] == ev["jprio"]
                               and [k for k, _ in a1.joints.items(multi=True)] == [k for k, _ in a0.joints.items(multi=True)])
     return ev
 
